@@ -334,7 +334,17 @@ class DataFrameSchemaBackend(PolarsSchemaBackend):
         existing_columns = get_lazyframe_column_names(check_obj)
         schema_cols_dict: dict = {}
         for col_name, col_schema in schema.columns.items():
-            if col_name in existing_columns or col_schema.required:
+            if col_schema.regex:
+                # a regex column stands for the dataframe columns it matches
+                try:
+                    matched = col_schema.get_backend(
+                        check_obj
+                    ).get_regex_columns(col_schema, check_obj)
+                except SchemaError:
+                    matched = []
+                for matched_col_name in matched:
+                    schema_cols_dict[matched_col_name] = None
+            elif col_name in existing_columns or col_schema.required:
                 schema_cols_dict[col_name] = None
 
         ordered_cols: List[Any] = []
